@@ -245,9 +245,21 @@ structure St where
   halted : Option Death := none   -- the run itself ended (in-process death of test code)
   deriving Repr, Inhabited
 
+/-- The built-in reporters. They differ in presentation (not modelled) and in one piece of logic: CUTE
+and CDash finish a suite through `reporter_finish_test` (a missing completion notice for the suite
+would be counted as an exception), the others through `reporter_finish_suite`. -/
+inductive Reporter | text | quiet | cute | xml | libxml | cdash
+  deriving DecidableEq, Repr, Inhabited
+
+def Reporter.suiteViaFinishTest : Reporter → Bool
+  | .cute => true
+  | .cdash => true
+  | _ => false
+
 structure Cfg where
   cap : Nat := 4096
   mode : Mode := .fork
+  rep : Reporter := .text
   deriving Repr, Inhabited
 
 def evs (proc : Nat) (path : List String) (tr : List Phase) : List Out := tr.map (Out.ev proc path)
@@ -306,7 +318,8 @@ def finishSuite (cfg : Cfg) (s : St) (path : List String) : St :=
   | some d => { s with pipe := pr.pipe, halted := some d }
   | none =>
     let r := readResults s.cur false pr.pipe
-    { s with pipe := r.2.1, cur := r.1, tot := s.tot + r.1, out := s.out ++ [Out.suiteEnd path r.1] }
+    let c := if cfg.rep.suiteViaFinishTest && r.2.2 = .notReceived then r.1 + Rec.exception.cnt else r.1
+    { s with pipe := r.2.1, cur := c, tot := s.tot + c, out := s.out ++ [Out.suiteEnd path c] }
 
 mutual
 /-- `run_every_test`. -/
